@@ -77,7 +77,7 @@ def run_impl(case):
         p.add_process_listener(lis)
         p.execute()
     except BaseException as e:  # noqa
-        return dict(error=type(e).__name__, rec=rec)
+        return common.plain(dict(error=type(e).__name__, rec=rec))
     fin = dict(state=p.state.value, final_spec=pg.snapshot_spec(P.spec().outputs), outputs=pg.from_py(p.outputs), emitted=list(lis.emitted),
                finished=list(lis.finished))
     try:
@@ -85,14 +85,15 @@ def run_impl(case):
     except Exception as e:  # noqa
         fin['successful'] = 'raises ' + type(e).__name__
     try:
-        fin['result'] = p.result()
+        r = p.result()
+        fin['result'] = r if isinstance(r, (int, float, str, bool, type(None))) else 'object ' + type(r).__name__    # plain data only
     except Exception as e:  # noqa
         fin['result'] = 'raises ' + type(e).__name__
     try:
         fin['future'] = pg.from_py(p.future().result())
     except Exception as e:  # noqa
         fin['future'] = 'raises ' + type(e).__name__
-    return dict(error=None, rec=rec, fin=fin)
+    return common.plain(dict(error=None, rec=rec, fin=fin))
 
 
 def show_t(v):
